@@ -144,3 +144,12 @@ M("c11-multicast-gate-off", "C11", "break", (S, "                if multicast:\n
 M("c11-counter-dropped", "C11", "break", (S, "            counter=entry.eventgroup_counter,", "            counter=0,"))
 M("c11-nack-ttl-1", "C11", "break", (S, "        return dataclasses.replace(self, ttl=0).to_ack_entry()", "        return dataclasses.replace(self, ttl=1).to_ack_entry()"))
 M("c11-no-running-check", "C11", "break", (S, "        if self._task is None:\n            return False\n\n        if not self.service.matches_subscribe(entry):", "        if not self.service.matches_subscribe(entry):"))
+
+# ---------------------------------------------------------------- C13
+M("c13-list-built-before-sleep", "C13", "break", (S, "            await asyncio.sleep(\n                (2 ** i) * self.timings.REPETITIONS_BASE_DELAY\n            )  # 4.2.1: SWS_SD_00363\n\n            find_entries = _build_entries()", "            find_entries = _build_entries()\n            await asyncio.sleep(\n                (2 ** i) * self.timings.REPETITIONS_BASE_DELAY\n            )  # 4.2.1: SWS_SD_00363\n"))
+M("c13-no-found-filter", "C13", "break", (S, "                if not self._service_found(service)  # 4.2.1: SWS_SD_00365", ""))
+M("c13-one-more-round", "C13", "break", (S, "        for i in range(self.timings.REPETITIONS_MAX):\n            await asyncio.sleep(\n                (2 ** i) * self.timings.REPETITIONS_BASE_DELAY\n            )  # 4.2.1: SWS_SD_00363", "        for i in range(self.timings.REPETITIONS_MAX + 1):\n            await asyncio.sleep(\n                (2 ** i) * self.timings.REPETITIONS_BASE_DELAY\n            )  # 4.2.1: SWS_SD_00363"))
+M("c13-continue-instead-of-return", "C13", "break", (S, "            find_entries = _build_entries()\n            if not find_entries:\n                return\n            self.sd.send_sd(find_entries)  # 4.2.1: SWS_SD_00457", "            find_entries = _build_entries()\n            if not find_entries:\n                continue\n            self.sd.send_sd(find_entries)  # 4.2.1: SWS_SD_00457"))
+M("c13-find-ttl", "C13", "break", (S, "                service.create_find_entry(self.timings.FIND_TTL)", "                service.create_find_entry(self.timings.ANNOUNCE_TTL)"))
+M("c13-found-by-offer-match", "C13,C05", "break", (S, "        return any(service.matches_service(s) for s in self.found_services.entries())", "        return any(s.matches_offer(service.create_offer_entry()) for s in self.found_services.entries())"))
+M("c13-find-to-unicast", "C13", "break", (S, "            self.sd.send_sd(find_entries)  # 4.2.1: SWS_SD_00457", "            self.sd.send_sd(find_entries, remote=(\"192.0.2.1\", 30490))  # 4.2.1: SWS_SD_00457"))
